@@ -135,6 +135,17 @@ func newC10Origin() *c10Origin {
 				}
 			}
 			return
+		case 'r':
+			// round 7: the complete response header, the beginning of the body, then the connection
+			// is cut: the client's attempt fails while the library auto-reads the body
+			if hj, ok := w.(http.Hijacker); ok {
+				if conn, _, err := hj.Hijack(); err == nil {
+					code, _ := strconv.Atoi(out[1:])
+					fmt.Fprintf(conn, "HTTP/1.1 %d X\r\nX-Attempt: %d\r\nContent-Type: application/json\r\nContent-Length: 64\r\nConnection: close\r\n\r\n%s", code, k, c10PartialBody)
+					conn.Close()
+				}
+			}
+			return
 		case 'c':
 			cancel()
 			select {
@@ -180,6 +191,8 @@ func (x *c10Run) e2eBuild(o *c10Origin, id, dir string) (*Client, *Request) {
 				kind := "t"
 				if errors.Is(err, context.Canceled) {
 					kind = "c"
+				} else if resp != nil && resp.Response != nil {
+					kind = "b" // the header arrived: the body broke off
 				}
 				err = &c10Err{kind, k, err}
 				if resp != nil {
@@ -197,7 +210,7 @@ func (x *c10Run) e2eBuild(o *c10Origin, id, dir string) (*Client, *Request) {
 
 func TestVerif_C10_e2e(t *testing.T) {
 	s := verifh.New(t, "C10", "e2e",
-		"real client + real HTTP/1.1 transport against a loopback origin following a script (status 200/404/429/500/503, abrupt close = transport error, context cancelled in flight, undecodable body); random request shapes as in lane wire (all body kinds, multipart files from every content source incl. caller-written GetFileContent with a shared reader, buffered and streamed, cookies/headers/query/form at both levels), dump-each-request and trace on in most cases, retry count {-1,0,1,2,5}; oracle: every capture of one call byte-identical at the origin, count bound, dump holds one attempt; event log compared with the model; non-trivial = at least one retry")
+		"real client + real HTTP/1.1 transport against a loopback origin following a script (status 200/404/429/500/503, abrupt close = transport error, context cancelled in flight, undecodable body, body cut after the header with a 2xx/3xx/5xx status); random request shapes as in lane wire (all body kinds, multipart files from every content source incl. caller-written GetFileContent with a shared reader, buffered and streamed, cookies/headers/query/form at both levels), dump-each-request and trace on in most cases, retry count {-1,0,1,2,5}; oracle: every capture of one call byte-identical at the origin, count bound, dump holds one attempt; event log compared with the model; non-trivial = at least one retry")
 	r := s.Rand()
 	o := newC10Origin()
 	defer o.srv.Close()
@@ -222,17 +235,17 @@ func TestVerif_C10_e2e(t *testing.T) {
 			tc.reqOps = append(tc.reqOps, "ac0")
 			tc.clientOps = append(tc.clientOps, "ac1")
 			for j := 0; j < fails; j++ {
-				tc.script = append(tc.script, []string{"s503", "s500", "s429", "b502"}[r.Intn(4)])
+				tc.script = append(tc.script, []string{"s503", "s500", "s429", "b502", "r503"}[r.Intn(5)])
 			}
 		} else {
 			for j := 0; j < fails; j++ {
-				tc.script = append(tc.script, []string{"t", "t", "b500", "t"}[r.Intn(4)])
+				tc.script = append(tc.script, []string{"t", "t", "b500", "t", "r300", "r200", "r500", "r300"}[r.Intn(8)])
 			}
 		}
-		tc.script = append(tc.script, []string{"s200", "s200", "s404", "t", "c"}[r.Intn(5)], "c")
+		tc.script = append(tc.script, []string{"s200", "s200", "s404", "t", "c", "s200", "r300"}[r.Intn(7)], "c")
 		if tc.method == "HEAD" { // a HEAD response carries no body that could fail to decode
 			for j, o := range tc.script {
-				if o[0] == 'b' {
+				if o[0] == 'b' || o[0] == 'r' {
 					tc.script[j] = "s" + o[1:]
 				}
 			}
